@@ -22,7 +22,9 @@ ANON_GATES = ["g", "h", "gg", "Sx", "Px", "R3", "g.h", "loop_", "subcircuits"]
 
 INT_ARGS = [0, 1, -1, 2, 3, 7, 12, 255, -17, 2**31 - 1, 2**31, -(2**31) - 1, 2**63 - 1, 2**63 + 1, 10**30]
 FLOAT_ARGS = [0.0, -0.0, 0.5, -0.25, 1.5, 2.0, 3.141592653589793, math.pi / 2, 0.1, 1e-06, 1e-07, 1.5e-05, 1e16, 1.5e300,
-              5e-324, 1e22, 123456789.125, -2.5e-10, 6.02e23, float(2**53), 0.30000000000000004, 1e21, 9007199254740993.0]
+              5e-324, 1e22, 123456789.125, -2.5e-10, 6.02e23, float(2**53), 0.30000000000000004, 1e21, 9007199254740993.0,
+              # the largest finite double, and doubles that a 32-bit float holds exactly although their decimal text is long
+              1.7976931348623157e308, -1.7976931348623157e308, 0.10000000149011612, 0.3333333432674408, 2.700000047683716]
 
 
 def weighted(rng, pairs):
